@@ -2,24 +2,22 @@
  'kind': 'proof', 'mode': 'legacy',
  'functions': ['bsearch'],
  'clauses': 'for every nmemb (0 included), the given element size and ANY comparator results: terminates, every compar call gets (key, pointer to an element inside the array) - so nothing outside the array is ever handed out for dereferencing -, result is NULL or a pointer to an element of the array; array and key not modified by bsearch itself',
- 'params': {'SIZE': [1, 2, 3, 4, 8, 12, 32]}, 'solver': 'kissat', 'timeout': 300,
+ 'params': {'SIZE': [1, 2, 3, 4, 8, 32]}, 'solver': 'kissat', 'timeout': 300,
  'params_thorough': {'SIZE': [1, 2, 3, 4, 5, 6, 7, 8, 9, 10, 11, 12, 13, 14, 15, 16, 17, 18, 19, 20, 21, 22, 23, 24, 25, 26, 27, 28, 29, 30, 31, 32]},
  'inject': [
-   {'file': 'compat/libc/stdlib/bsearch.c', 'func': 'bsearch', 'ghost': 'g_bl = 0; g_bd = nmemb;', 'at': 'func-begin'},
+   {'file': 'compat/libc/stdlib/bsearch.c', 'func': 'bsearch', 'ghost': 'g_bl = 0; g_bd = nmemb; g_sr_idx = 0;', 'at': 'func-begin'},
    {'file': 'compat/libc/stdlib/bsearch.c', 'func': 'bsearch', 'loop': 0, 'expect': 'left + size < right',
     'assigns': 'left, right, mid, g_bl, g_bd, g_bm, g_sr_idx',
     'invariants': ['__CPROVER_same_object(left, base) && __CPROVER_same_object(right, base)',
-                   'g_bd >= 1 && g_bl < nmemb && g_bd <= nmemb - g_bl',
+                   'g_bd >= 1 && g_bl < nmemb && g_bd <= nmemb - g_bl && g_sr_idx == g_bl',
                    '__CPROVER_POINTER_OFFSET(left) >= 0 && __CPROVER_POINTER_OFFSET(left) < __CPROVER_POINTER_OFFSET(right) && (size_t)__CPROVER_POINTER_OFFSET(right) <= nmemb * size',
                    '(size_t)__CPROVER_POINTER_OFFSET(left) == g_bl * size',
                    '(size_t)(__CPROVER_POINTER_OFFSET(right) - __CPROVER_POINTER_OFFSET(left)) == g_bd * size'],
     'decreases': 'g_bd'},
    {'file': 'compat/libc/stdlib/bsearch.c', 'func': 'bsearch', 'ghost': 'g_bm = g_bl + (g_bd >> 1); g_sr_idx = g_bm;',
     'at': 'after', 'anchor': 'mid = left + ((right - left) / (size << 1) * size);'},
-   {'file': 'compat/libc/stdlib/bsearch.c', 'func': 'bsearch', 'ghost': 'if (right == mid) { g_bd = g_bd >> 1; } else { g_bd = g_bd - (g_bd >> 1); g_bl = g_bm; }',
+   {'file': 'compat/libc/stdlib/bsearch.c', 'func': 'bsearch', 'ghost': 'if (right == mid) { g_bd = g_bd >> 1; } else { g_bd = g_bd - (g_bd >> 1); g_bl = g_bm; } g_sr_idx = g_bl;',
     'at': 'body-end', 'loop': 0},
-   {'file': 'compat/libc/stdlib/bsearch.c', 'func': 'bsearch', 'ghost': 'g_sr_idx = g_bl;',
-    'at': 'before', 'anchor': 'if (compar(left, key) == 0)'},
  ],
  'kf': ['C11_bsearch_empty', 'C11_bsearch_argorder'],
  'kf_probe_case': {'C11_bsearch_empty': {'SIZE': 4}, 'C11_bsearch_argorder': {'SIZE': 4}},
